@@ -24,6 +24,8 @@ CONF = {
     "C18": tiers(15000, 2, 200000, 12),
     "C19": tiers(15000, 2, 300000, 12),
     "C08": tiers(4000, 4, 50000, 12),
+    "C05": dict(quick=dict(checks=0, shards=0, stages=["c05"], staged_replay=True, batches=1, defs=40, inputs=150, timeout=1200, min_evaluations=100),
+                thorough=dict(checks=0, shards=0, stages=["c05"], staged_replay=True, batches=8, defs=120, inputs=300, timeout=3000, min_evaluations=100)),
     "C10": tiers(2500, 4, 40000, 12),
     "C11": tiers(2500, 4, 40000, 12),
     "C13": tiers(1500, 4, 25000, 12),
@@ -74,6 +76,16 @@ META = {
               "offsets, order, single final EOF, concatenation, line/column recomputed from the offset, filename. Exploration.",
         note="Trusts the ~60-line validator (lexgen/validate.go) and utf8.RuneCountInString as the meaning of 'characters'. Generated lexers are "
              "covered by the compile stage of C05 (same validator)."),
+    "C05": dict(
+        engine="srcgen", design_ref="3/C05",
+        technique="differential fuzzing through a compile stage: generated definitions -> `participle gen lexer` -> go build -> runtime vs generated lexer; possessive-matcher oracle for the documented tolerance",
+        level="Batches of generated rule sets of the documented class are turned into Go source by the generator binary built from /repo, compiled, "
+              "and compared with the runtime lexer on thousands of inputs walked through the state machine: generator exit status, compilation, "
+              "Symbols(), (type, text, position) streams, elision, EOF, error positions. A difference is tolerated only when an independent possessive "
+              "matcher shows that no-backtracking matching of a tried rule differs from backtracking matching. Exploration (40 definitions x 150 inputs "
+              "quick, ~1000 x 300 thorough).",
+        note=LEX_NOTE + " Also trusts the ~150-line possessive matcher over regexp/syntax trees (lexgen/possessive.go) for the tolerance decision, "
+             "and the Go toolchain for 'compiles'. The generated lexers are additionally checked with C04's validator and C07's oracle."),
     "C07": dict(
         engine="lexgen", design_ref="3/C07",
         technique="property test: generated hostile rule sets/inputs/call histories with a no-panic, progress and sticky-EOF oracle + watchdog (rapid)",
@@ -96,6 +108,32 @@ META = {
               "at the first captured token and name the conversion. Exploration.",
         note="Trusts strconv as the meaning of the conversion (as the property states) and rapid. Known finding F2 (error positioned at a preceding "
              "elided token) is excluded by signature."),
+    "C08": dict(
+        engine="gram", design_ref="3/C08",
+        technique="property test against an independent left-recursion analysis (nullability fix-point + left-edge reachability) on generated recursive systems (rapid)",
+        level="Generated systems of 1-4 mutually referring productions (recursion through unions) with every reference placement the statement lists, "
+              "plus 14 static fixtures with direct struct recursion: Build must reject exactly the systems in which the independent analysis finds a "
+              "production that re-enters itself before consuming. Accepted grammars are parsed on sampled inputs under a crash journal and their "
+              "recursion depth (from the Trace output) must stay proportional to the input length. Exploration.",
+        note=GRAM_NOTE + " Direct struct recursion cannot be generated with reflect.StructOf; it is covered by hand-written fixtures only."),
+    "C18": dict(
+        engine="props", design_ref="3/C18",
+        technique="inverse/differential property test: strconv.Quote/Unquote round trip and unmapped-vs-mapped token streams (rapid)",
+        level="Generated strings in every Go quoting style (incl. hand-assembled and corrupted escapes) are lexed by the default and a permissive "
+              "stateful lexer under 1-3 mapper options; the mapped stream must equal the unmapped one except that selected literal tokens hold "
+              "strconv.Unquote's value / selected tokens are upper-cased, positions untouched, a recording Map sees each selected non-EOF token once "
+              "in order (elided ones included), and rejected escapes give an error located at the token. Exploration.",
+        note="Trusts strconv.Unquote as the meaning of 'unquoted value' (as the property states). Unquote applied to tokens that are not Go literals "
+             "(e.g. single-quoted multi-character strings) is outside the statement and is skipped."),
+    "C19": dict(
+        engine="props", design_ref="3/C19",
+        technique="grammar-aware fuzzing of struct tags and field types with a reference recogniser of the tag syntax (rapid)",
+        level="Struct types assembled with reflect.StructOf from a pool of 28 field types plus static odd types, tagged with token soup, single-token "
+              "edits of valid grammars, raw byte soup and valid generated grammars, in both tag forms: Build must return within the watchdog without "
+              "panicking, return exactly one of parser/error, build what the reference recogniser classifies as valid and reject the listed malformed "
+              "shapes. A fatal crash (stack overflow) is attributed through a case journal. Exploration.",
+        note="Trusts the harness's ~150-line recogniser of the documented tag syntax; it only claims 'must build' for tags without @@ whose capture "
+             "targets are simple types, and 'must be rejected' for the malformed shapes the statement lists; everything else only has to terminate without panic."),
     "C10": dict(
         engine="gram", design_ref="3/C10",
         technique="metamorphic property test: re-spacing / re-commenting of generated inputs (rapid)",
